@@ -80,6 +80,9 @@ def _mk_pytree(kind, R):
     def ob(w):
         obj = _build(w, kind, R)
         x = w.arr("x", "N", "D" if not kind.startswith("cond-") else ("Dy" if "identity" in kind else "Dx"))
+        # __getstate__ / __setstate__ (copy, pickle): the state is the attribute dictionary, restored verbatim
+        import copy
+        _same_attrs(w, "getstate-setstate", obj, copy.copy(obj))            # REAL _getstate / _setstate
         if w.symbolic:
             from .. import shim as S
             flatten, unflatten, DC = _captured_pytree_funcs(type(obj))
@@ -124,7 +127,20 @@ def _mk_dict(kind, R):
     return ob
 
 
+def _mk_ctor_guards():
+    """the dict-like constructor accepts only declared fields by keyword (an undeclared or positional argument would be
+    silently dropped by unflatten otherwise)"""
+    def ob(w):
+        F = SP.mods()["factor"]
+        L = w.symm("Lf", ["R"], "D")
+        nu = w.arr("nf", "R", "D")
+        w.raises("positional-arguments-refused", (ValueError, TypeError), lambda: F.ConjugateFactor(L, nu))
+        w.raises("unknown-keyword-refused", (ValueError, TypeError), lambda: F.ConjugateFactor(Lambda=L, nu=nu, Sigma_typo=L))
+    return ob
+
+
 def _register():
+    REG.ob("constructor-guards", sorts=["R", "D"], funcs=["utils.dataclass.mappable_dataclass.new_init"])(_mk_ctor_guards())
     for kind in KINDS:
         for R in ("R", 1):
             if kind == "cond-nn" and R != 1:
@@ -134,7 +150,8 @@ def _register():
             sorts = (["R"] if R != 1 else []) + (["Rn"] if kind.endswith("+updated") else []) + ["N"] + (["D"] if not kind.startswith("cond-") else (["Dy"] if "identity" in kind else ["Dx", "Dy"])) + (["Du"] if kind == "cond-nn" else [])
             REG.ob(f"pytree/{kind}/R={R}", sorts=sorts,
                    funcs=["utils.dataclass.register_dataclass_type_with_jax_tree_util", "utils.dataclass.mappable_dataclass.new_init",
-                          "utils.dataclass._Dataclass.__call__"] + (["pdf.GaussianDiagPDF.update" if kind.startswith("diag") else "pdf.GaussianPDF.update"] if kind.endswith("+updated") else []),
+                          "utils.dataclass._Dataclass.__call__", "utils.dataclass._Dataclass.__call__._getstate",
+                          "utils.dataclass._Dataclass.__call__._setstate"] + (["pdf.GaussianDiagPDF.update" if kind.startswith("diag") else "pdf.GaussianPDF.update"] if kind.endswith("+updated") else []),
                    axioms=["jax.tree_util calls flatten_func / unflatten_func exactly as registered"] +
                           (["scatter with duplicate indices: one winner per component, the same for every field"] if kind.endswith("+updated") else []))(_mk_pytree(kind, R))
     for kind in ("general", "rank-one", "linear", "constant", "measure", "diag-measure", "pdf", "diag-pdf"):
